@@ -275,6 +275,11 @@ class Body:
                     cap = self.facts.capture_expr(x.get('o'), x['f'])
                 if cap is not None:
                     e = ('upvar', cap, x.get('n', str(x['f'])), x.get('o'))
+                elif e[0] == 'agg' and e[1] == 'tuple' and x['f'] < len(e[5]):
+                    e = e[5][x['f']]          # projection of a tuple literal: the operand itself
+                elif e[0] == 'agg' and e[1] == 'adt' and x.get('n') in e[4] and len(e[4]) == len(e[5]) and \
+                        not (e[2] or '').endswith('option::Option'):
+                    e = e[5][e[4].index(x['n'])]
                 else:
                     e = ('field', e, x.get('n', str(x['f'])), x.get('o'))
             elif 'dc' in x:
